@@ -10,6 +10,7 @@ claimed = [c['property_id'] for c in json.load(open(f'{VERIF}/MANIFEST.json'))['
 only = None
 recheck = '--recheck' in sys.argv
 allprops = '--all' in sys.argv
+ownonly = '--own-only' in sys.argv  # do not run the other properties' checks when the own one misses
 if '--only' in sys.argv:
     only = sys.argv[sys.argv.index('--only') + 1]
 
@@ -70,8 +71,10 @@ for dst in sorted(glob.glob(f'{VERIF}/seeded/C*-[mnpqrs]*')):
     parse(out)
     detail = out
     caught = [p for p, r in checks.items() if r['exit'] == 1 and r['violations'] > 0]
-    if ok and (not caught or allprops):
+    if ok and (not caught or allprops) and not ownonly:
         rest = [p for p in claimed if p not in checks]
+        if '--rest' in sys.argv:  # only these other checks (time)
+            rest = [p for p in sys.argv[sys.argv.index('--rest') + 1].split(',') if p not in checks]
         if rest:
             o2 = run_eval(dst, dest, run, rest, skip_confirm=True)
             parse(o2)
